@@ -119,6 +119,23 @@ Inventory(n, oid, cid) ==
 ExpectedInventory(m, mid) == UNION { Inventory(m.ch[j], mid, "") : j \in 1..Len(m.ch) }
 
 ToSet(seq) == { seq[j] : j \in 1..Len(seq) }
+(* The walk of one module as the implementation performed it: obs.walk = Seq of <<phase, kind, name>> (assignment statements appear as *)
+(* kind "assign").  It must be exactly the event sequence of the machine above: same order, properly nested, nothing visited twice.   *)
+WalkKind(k) == IF k \in {"attr", "inst"} THEN "assign" ELSE k
+ExpectedWalk(m) == LET evs == Events(m) IN [ j \in 1..Len(evs) |-> << evs[j][1], WalkKind(evs[j][2].k), IF evs[j][2].k = "module" THEN "@module" ELSE evs[j][2].name >> ]
+FirstDiffW(a, b) == LET n == IF Len(a) < Len(b) THEN Len(a) ELSE Len(b)
+                        D == { j \in 1..n : a[j] # b[j] }
+                    IN IF D = {} THEN n + 1 ELSE CHOOSE j \in D : \A k \in D : j <= k
+JudgeWalk(m, obs) ==
+  LET exp == ExpectedWalk(m)
+      got == [ j \in 1..Len(obs.walk) |-> << obs.walk[j][1], obs.walk[j][2], IF obs.walk[j][2] = "module" THEN "@module" ELSE obs.walk[j][3] >> ]
+      d == FirstDiffW(exp, got)
+  IN IF exp = got THEN {}
+     ELSE { [property |-> "C12", clause |-> "Walk",
+             sig |-> "walk-differs:" \o (IF d > Len(exp) THEN "extra-event:" \o got[d][1] \o "-" \o got[d][2]
+                                        ELSE IF d > Len(got) THEN "missing-event:" \o exp[d][1] \o "-" \o exp[d][2]
+                                        ELSE "expected-" \o exp[d][1] \o "-" \o exp[d][2] \o ":got-" \o got[d][1] \o "-" \o got[d][2]),
+             expected |-> ToString(exp), observed |-> ToString(got)] }
 ExpSupers(sup) == CASE sup = "none" -> <<>> [] sup = "one" -> <<"basemod.BaseA">> [] sup = "two" -> <<"basemod.BaseA", "basemod.BaseB">> [] sup = "aliased" -> <<"basemod.BaseA">>
 (* obs = [mid, entries: Seq [kind, id, name, refs: Seq ids, flags: Seq], sorted: BOOLEAN, dups: Seq ids, schema: Nat, valid: BOOLEAN] *)
 Judge(m, obs) ==
